@@ -28,6 +28,13 @@ def run(ctx):
             elif e['ev'] == 'Census':
                 names = set(e['names'])
                 reg = set(hdr['names'])
+                unresolved = [n for n in e['names'] if not n]
+                if unresolved and why in ('census-differs-from-registry', 'lint-type-never-registered') and (names - {''}) <= reg:
+                    # a registration whose name is not a literal at the call site (a helper, a loop over a table) registers what
+                    # the census cannot count: every name the sources do spell out is registered, the rest is undecided
+                    ctx.drift.append('census: %d registration call(s) with a computed name; %d registered lints are not spelled out at a call site (%s): the count of registrations is not decided' % (
+                        len(unresolved), len(reg - names), ', '.join(sorted(reg - names)[:4])))
+                    continue
                 detail = 'in sources only: %s; in registry only: %s; census=%d registry=%d; dirs not imported: %s; types never registered: %s' % (
                     sorted(names - reg)[:5], sorted(reg - names)[:5], len(e['names']), len(hdr['names']),
                     sorted(set(e['lintDirs']) - set(e['imported'])), sorted(set(e['lintTypes']) - set(e['registeredTypes']))[:5])
